@@ -100,18 +100,17 @@ class CollectionPartGet(CollectionPartCache, CollectionPartLock,
                     # Check if another process created the file in the meantime
                     cache_content = self._load_item_cache(href, cache_hash)
                 if cache_content is None:
+                    # Read the properties outside of the ``try``: an I/O
+                    # error is not a broken item
+                    tag = self.tag
                     try:
                         vobject_items = radicale_item.read_components(
                             raw_text.decode(self._encoding))
                         radicale_item.check_and_sanitize_items(
-                            vobject_items, tag=self.tag)
+                            vobject_items, tag=tag)
                         vobject_item, = vobject_items
                         temp_item = radicale_item.Item(
                             collection=self, vobject_item=vobject_item)
-                        if self._storage._debug_cache_actions is True:
-                            logger.debug("Item cache store  for: %r", path)
-                        cache_content = self._store_item_cache(
-                            href, temp_item, cache_hash)
                     except Exception as e:
                         if self._skip_broken_item:
                             logger.warning("Skip broken item %r in %r: %s", href, self.path, e)
@@ -119,6 +118,18 @@ class CollectionPartGet(CollectionPartCache, CollectionPartLock,
                         else:
                             raise RuntimeError("Failed to load item %r in %r: %s" %
                                                (href, self.path, e)) from e
+                    # A cache that can't be written must not make a valid
+                    # item look broken (and thereby absent)
+                    if self._storage._debug_cache_actions is True:
+                        logger.debug("Item cache store  for: %r", path)
+                    try:
+                        cache_content = self._store_item_cache(
+                            href, temp_item, cache_hash)
+                    except OSError as e:
+                        logger.warning(
+                            "Failed to store item cache of %r in %r: %s",
+                            href, self.path, e)
+                        cache_content = self._item_cache_content(temp_item)
                     # Clean cache entries once after the data in the file
                     # system was edited externally.
                     if not self._item_cache_cleaned:
